@@ -185,6 +185,18 @@ impl ItsWorld {
         let bn = |_: &BytesN<32>| String::new();
         let _ = bn;
         match t[0] {
+            "probe_extra" => {
+                // see gw.rs: exported functions unknown to the model, called without any authorisation
+                let known: [&str; 21] = ["__constructor", "chain_name", "gas_service", "interchain_token_wasm_hash", "its_hub_address", "its_hub_chain_name", "is_trusted_chain", "set_trusted_chain", "remove_trusted_chain", "interchain_token_deploy_salt", "interchain_token_id", "canonical_token_deploy_salt", "token_address", "token_manager_type", "deploy_interchain_token", "deploy_remote_interchain_token", "deploy_remote_canonical_token", "interchain_transfer", "register_canonical_token", "gateway", "execute"];
+                let addrs: Vec<Address> = t[1].split(',').filter(|x| !x.is_empty() && *x != "-").map(|x| Addr::parse(x).sdk(&env)).collect();
+                let toks: Vec<(Address, i128)> = t[2].split(',').filter(|x| !x.is_empty() && *x != "-").map(|x| (Addr::parse(x).sdk(&env), 1i128)).collect();
+                let mut names = vec![];
+                if let Some(c) = self.its.clone() {
+                    names = probe_unknown_entry_points(&env, &c, "/repo/contracts/interchain-token-service/src/contract.rs", &known, &addrs, &toks);
+                }
+                let _ = self.events();
+                ("ok".into(), format!("probed={}", names.join(",")))
+            }
             "its.new" => {
                 // its.new <its> <owner> <gas-service> <hub-address> <chain-name>     (gateway must exist)
                 let gw = self.gw.gw.clone().expect("gateway first");
@@ -388,7 +400,13 @@ impl ItsWorld {
                     let ds = self.client().canonical_token_deploy_salt(&tk);
                     self.client().try_interchain_token_id(&Address::from_string(&SString::from_str(&env, "GAAAAAAAAAAAAAAAAAAAAAAAAAAAAAAAAAAAAAAAAAAAAAAAAAAAAWHF")), &ds)
                 }) {
-                    let tc = TokenClient::new(&env, &tk);
+                    // the announcement carries the metadata of the token REGISTERED under the id (normally `tk` itself; another
+                    // token when the id was taken before `tk` could be registered): the spender's authorisation is for that payload
+                    let registered = match guarded(|| self.client().try_token_address(&tid)) {
+                        Ok(Ok(Ok(a))) => a,
+                        _ => tk.clone(),
+                    };
+                    let tc = TokenClient::new(&env, &registered);
                     if let Ok((n, s, d)) = guarded(|| (tc.name(), tc.symbol(), tc.decimals())) {
                         let msg = Message::DeployInterchainToken(DeployInterchainToken { token_id: tid, name: n, symbol: s, decimals: d as u8, minter: None });
                         if let Some(p) = self.hub_payload(&dest, msg) {
